@@ -9,6 +9,7 @@
 import QlibcModel.Encode.Base64
 import QlibcModel.Encode.Query
 import QlibcModel.Encode.MakewordSpec
+import QlibcModel.Shapes.Encode
 
 namespace Qlibc.Props.C16
 open Qlibc Qlibc.Encode Qlibc.Generated
